@@ -1,118 +1,8 @@
 (* C12 — decode (encode v ++ rest) = (norm v, rest): structural induction over schemas. *)
 From Coq Require Import List ZArith Bool Lia.
-From TskVerif Require Import Base.Common C12.Model C12.BytesProofs.
+From TskVerif Require Import Base.Common C12.Model C12.BytesProofs C12.Unfold C12.ValidProofs C12.ShapeProofs.
 Import ListNotations.
 Open Scope Z_scope.
-
-(* ------------------------------------------------------------ induction principle *)
-
-Section SchemaInd.
-  Variable P : schema -> Prop.
-  Hypothesis Hleaf : forall t f nt, P (SLeaf t f nt).
-  Hypothesis Harr : forall m it, P it -> P (SArr m it).
-  Hypothesis Hobj : forall req ps, Forall (fun p : prop => P (snd p)) ps -> P (SObj req ps).
-
-  Fixpoint schema_ind' (s : schema) : P s :=
-    match s with
-    | SLeaf t f nt => Hleaf t f nt
-    | SArr m it => Harr m it (schema_ind' it)
-    | SObj req ps =>
-        Hobj req ps
-          ((fix go (ps : list prop) : Forall (fun p : prop => P (snd p)) ps :=
-              match ps with
-              | [] => Forall_nil _
-              | p :: r => Forall_cons p (schema_ind' (snd p)) (go r)
-              end) ps)
-    end.
-End SchemaInd.
-
-(* ------------------------------------------------------------ the counted loop *)
-
-Lemma lstep_stop d r : lstep d (LStop r) = LStop r.
-Proof. reflexivity. Qed.
-
-Lemma iter_stop d n r : Nat.iter n (lstep d) (LStop r) = LStop r.
-Proof. induction n; simpl; auto. rewrite IHn. reflexivity. Qed.
-
-Lemma iter_add {A} (f : A -> A) n m x : Nat.iter (n + m) f x = Nat.iter n f (Nat.iter m f x).
-Proof. induction n; simpl; auto. rewrite IHn; auto. Qed.
-
-Lemma iter_succ_r {A} (f : A -> A) n x : Nat.iter (S n) f x = Nat.iter n f (f x).
-Proof. induction n; simpl; auto. simpl in IHn. rewrite IHn. auto. Qed.
-
-Lemma lloop_iter d p st : lloop d p st = Nat.iter (Pos.to_nat p) (lstep d) st.
-Proof.
-  revert st; induction p; intros st; destruct st as [buf acc | r];
-    try (cbn [lloop]; rewrite iter_stop; reflexivity).
-  - cbn [lloop]. rewrite !IHp.
-    rewrite Pos2Nat.inj_xI. replace (S (2 * Pos.to_nat p))%nat with (Pos.to_nat p + (Pos.to_nat p + 1))%nat by lia.
-    rewrite !iter_add. simpl. reflexivity.
-  - cbn [lloop]. rewrite !IHp.
-    rewrite Pos2Nat.inj_xO. replace (2 * Pos.to_nat p)%nat with (Pos.to_nat p + Pos.to_nat p)%nat by lia.
-    rewrite iter_add. reflexivity.
-  - reflexivity.
-Qed.
-
-Lemma decode_n_iter d n buf acc :
-  lfinish (Nat.iter n (lstep d) (LGo buf acc)) = decode_n d n buf acc.
-Proof.
-  revert buf acc; induction n; intros; [reflexivity|].
-  rewrite iter_succ_r. cbn [decode_n lstep].
-  destruct (d buf); try (rewrite iter_stop; reflexivity).
-  apply IHn.
-Qed.
-
-Lemma decode_count_spec d n buf : decode_count d n buf = decode_n d (Z.to_nat n) buf [].
-Proof.
-  destruct n; try reflexivity.
-  unfold decode_count. rewrite lloop_iter. rewrite Z2Nat.inj_pos. apply decode_n_iter.
-Qed.
-
-(* ------------------------------------------------------------ list-level unfoldings *)
-
-Definition encode_list (enc : value -> eres (list Z)) : list value -> eres (list Z) :=
-  fix go (l : list value) : eres (list Z) :=
-    match l with
-    | [] => EOk []
-    | x :: r => ebind (enc x) (fun bs => ebind (go r) (fun rs => EOk (bs ++ rs)))
-    end.
-
-Definition encode_fields (E : schema -> value -> eres (list Z)) (kv : list (key * value))
-  : list prop -> eres (list Z) :=
-  fix go (ps : list prop) : eres (list Z) :=
-    match ps with
-    | [] => EOk []
-    | (k, m, sub) :: r =>
-        ebind (match lookup k kv with
-               | Some x => EOk x
-               | None => match p_default m with Some d => EOk d | None => EErr EKey end
-               end)
-          (fun x => ebind (E sub x) (fun bs => ebind (go r) (fun rs => EOk (bs ++ rs))))
-    end.
-
-Definition decode_fields (D : schema -> list Z -> dres)
-  : list prop -> list Z -> list (key * value) -> dres :=
-  fix go (ps : list prop) (buf : list Z) (acc : list (key * value)) : dres :=
-    match ps with
-    | [] => DOk (VObj (rev acc)) buf
-    | (k, _, sub) :: r =>
-        match D sub buf with
-        | DOk v rest => go r rest ((k, v) :: acc)
-        | DShort => DShort | DErr e => DErr e | DFuel => DFuel
-        end
-    end.
-
-Definition norm_fields (N : schema -> value -> value) (kv : list (key * value))
-  : list prop -> list (key * value) :=
-  fix go (ps : list prop) : list (key * value) :=
-    match ps with
-    | [] => []
-    | (k, m, sub) :: r =>
-        match (match lookup k kv with Some x => Some x | None => p_default m end) with
-        | Some x => (k, N sub x) :: go r
-        | None => go r
-        end
-    end.
 
 Section RT.
 Variable round32 : Z -> option Z.
@@ -121,39 +11,6 @@ Variable widen32 : Z -> Z.
 Notation encode := (encode round32).
 Notation decode := (decode widen32).
 Notation norm := (norm round32 widen32).
-
-Lemma encode_arr_eq m it l :
-  encode (SArr m it) (VArr l) =
-  match m with
-  | AFixed n => if Z.of_nat (length l) =? n then encode_list (encode it) l else EErr EValue
-  | AExhaust => encode_list (encode it) l
-  | ALen f => if Z.of_nat (length l) <? imod f
-              then ebind (encode_list (encode it) l)
-                         (fun bs => EOk (le_bytes (isize f) (Z.of_nat (length l)) ++ bs))
-              else EErr EValue
-  end.
-Proof. reflexivity. Qed.
-
-Lemma encode_obj_eq req ps kv : encode (SObj req ps) (VObj kv) = encode_fields encode kv ps.
-Proof. reflexivity. Qed.
-
-Lemma decode_obj_eq fuel req ps buf : decode fuel (SObj req ps) buf = decode_fields (decode fuel) ps buf [].
-Proof. reflexivity. Qed.
-
-Lemma norm_obj_eq req ps kv : norm (SObj req ps) (VObj kv) = VObj (norm_fields norm kv ps).
-Proof. reflexivity. Qed.
-
-Lemma decode_arr_eq fuel m it buf :
-  decode fuel (SArr m it) buf =
-  match m with
-  | AFixed n => decode_count (decode fuel it) n buf
-  | AExhaust => decode_exhaust (decode fuel it) fuel buf []
-  | ALen f => match take (Z.of_nat (isize f)) buf with
-              | None => DShort
-              | Some (bs, rest) => decode_count (decode fuel it) (le_val bs) rest
-              end
-  end.
-Proof. reflexivity. Qed.
 
 (* ------------------------------------------------------------ which schemas round-trip *)
 
@@ -326,49 +183,69 @@ Proof.
     rewrite (IH _ _ _ eq_refl). cbn [rev map]. rewrite <- app_assoc. reflexivity.
 Qed.
 
+(* what shape_ok of an object says about each property *)
+Definition prop_shape (p : prop) : Prop :=
+  shape_ok (snd p) = true /\ forall d, p_default (snd (fst p)) = Some d -> valid (snd p) d = true.
+
+Lemma shape_ok_props req ps : shape_ok (SObj req ps) = true -> Forall prop_shape ps.
+Proof.
+  cbn [shape_ok]. rewrite forallb_forall. intros H. apply Forall_forall. intros p Hp.
+  specialize (H p Hp). apply andb_true_iff in H as [H Hd]. apply andb_true_iff in H as [Hs _].
+  split; auto. intros d E. rewrite E in Hd. auto.
+Qed.
+
 Lemma fields_roundtrip fuel kv ps :
-  Forall (fun p : prop => rt_ok (snd p) = true -> forall fuel v bs rest,
+  Forall (fun p : prop => rt_ok (snd p) = true -> shape_ok (snd p) = true ->
+            forall fuel v bs rest, valid (snd p) v = true ->
             encode (snd p) v = EOk bs -> decode fuel (snd p) (bs ++ rest) = DOk (norm (snd p) v) rest) ps ->
   forallb (fun p : prop => rt_ok (snd p)) ps = true ->
+  Forall prop_shape ps ->
+  valid_fields valid kv ps = true ->
   forall bs rest acc, encode_fields encode kv ps = EOk bs ->
   decode_fields (decode fuel) ps (bs ++ rest) acc = DOk (VObj (rev acc ++ norm_fields norm kv ps)) rest.
 Proof.
-  induction 1 as [|[[k m] sub] r Hp Hr IH]; intros Hok bs rest acc He.
+  induction 1 as [|[[k m] sub] r Hp Hr IH]; intros Hok Hsh Hvf bs rest acc He.
   - simpl in He. injection He as <-. simpl. rewrite app_nil_r. reflexivity.
   - cbn [forallb snd] in Hok. apply andb_true_iff in Hok as [Hs Hok].
+    inversion Hsh as [|? ? [Hsub Hdv] Hsh']; subst. cbn [fst snd] in *.
+    cbn [valid_fields] in Hvf. fold (valid_fields valid kv) in Hvf. apply andb_true_iff in Hvf as [Hvx Hvr].
     cbn [encode_fields] in He. fold (encode_fields encode kv) in He.
     cbn [norm_fields]. fold (norm_fields norm kv).
     cbn [decode_fields]. fold (decode_fields (decode fuel)).
     unfold ebind in He.
     destruct (lookup k kv) as [x|] eqn:L.
-    + destruct (encode sub x) as [bx|] eqn:Ex; [|discriminate He].
+    + rewrite (normal_path round32 sub x _ Hsub Hvx) in He.
+      destruct (encode sub x) as [bx|] eqn:Ex; [|discriminate He].
       destruct (encode_fields encode kv r) as [br|] eqn:Er; [|discriminate He].
       injection He as <-. rewrite <- app_assoc.
-      cbn [snd] in Hp. rewrite (Hp Hs fuel _ _ _ Ex).
-      rewrite (IH Hok _ _ _ eq_refl). cbn [rev]. rewrite <- app_assoc. reflexivity.
+      rewrite (Hp Hs Hsub fuel _ _ _ Hvx Ex).
+      rewrite (IH Hok Hsh' Hvr _ _ _ eq_refl). cbn [rev]. rewrite <- app_assoc. reflexivity.
     + destruct (p_default m) as [x|] eqn:Dm; [|discriminate He].
       destruct (encode sub x) as [bx|] eqn:Ex; [|discriminate He].
       destruct (encode_fields encode kv r) as [br|] eqn:Er; [|discriminate He].
       injection He as <-. rewrite <- app_assoc.
-      cbn [snd] in Hp. rewrite (Hp Hs fuel _ _ _ Ex).
-      rewrite (IH Hok _ _ _ eq_refl). cbn [rev]. rewrite <- app_assoc. reflexivity.
+      rewrite (Hp Hs Hsub fuel _ _ _ (Hdv _ eq_refl) Ex).
+      rewrite (IH Hok Hsh' Hvr _ _ _ eq_refl). cbn [rev]. rewrite <- app_assoc. reflexivity.
 Qed.
 
 (* (a) struct_roundtrip, the exhaust-free fragment: numeric/bool/char/pad/strings (truncation,
    Pascal strings, NUL termination), fixed and length-prefixed arrays, objects with defaults.
-   Validity is not needed: whatever encodes, decodes to its normal form; any [rest] is left
-   untouched (so the statement composes, and decode consumes exactly |encode| bytes). *)
+   For every schema obeying the struct-codec rules at every level (shape_ok) and every object
+   valid under it that encodes, decode gives the normal form back; any [rest] is left untouched
+   (so the statement composes, and decode consumes exactly |encode| bytes). *)
 Theorem struct_roundtrip_gen s :
-  rt_ok s = true ->
-  forall fuel v bs rest, encode s v = EOk bs -> decode fuel s (bs ++ rest) = DOk (norm s v) rest.
+  rt_ok s = true -> shape_ok s = true ->
+  forall fuel v bs rest, valid s v = true -> encode s v = EOk bs ->
+  decode fuel s (bs ++ rest) = DOk (norm s v) rest.
 Proof.
-  induction s as [t f nt | m it IH | req ps IH] using schema_ind'; intros Hok fuel v bs rest He.
+  induction s as [t f nt | m it IH | req ps IH] using schema_ind'; intros Hok Hsh fuel v bs rest Hv He.
   - apply leaf_roundtrip; auto.
   - destruct v as [| | | | |l|]; try discriminate He.
     rewrite encode_arr_eq in He. rewrite decode_arr_eq.
+    cbn [shape_ok] in Hsh. cbn [valid] in Hv. rewrite forallb_forall in Hv.
     assert (HF : Forall (fun x => forall bs rest, encode it x = EOk bs ->
                            decode fuel it (bs ++ rest) = DOk (norm it x) rest) l).
-    { apply Forall_forall. intros x _ b r E. apply IH; auto. destruct m; auto; discriminate Hok. }
+    { apply Forall_forall. intros x Hx b r E. apply IH; auto. destruct m; auto; discriminate Hok. }
     destruct m as [n| |f]; [| discriminate Hok |]; cbn [rt_ok] in Hok.
     + destruct (Z.eqb_spec (Z.of_nat (length l)) n) as [<-|]; [|discriminate He].
       rewrite decode_count_spec, Nat2Z.id.
@@ -383,7 +260,8 @@ Proof.
   - destruct v as [| | | | | |kv]; try discriminate He.
     rewrite encode_obj_eq in He. rewrite decode_obj_eq, norm_obj_eq.
     cbn [rt_ok] in Hok.
-    rewrite (fields_roundtrip fuel kv ps IH Hok _ _ _ He). reflexivity.
+    rewrite valid_obj_eq in Hv. apply andb_true_iff in Hv as [_ Hvf].
+    rewrite (fields_roundtrip fuel kv ps IH Hok (shape_ok_props _ _ Hsh) Hvf _ _ _ He). reflexivity.
 Qed.
 
 End RT.
@@ -404,22 +282,22 @@ Definition norm_top (t : top) (v : value) : value :=
    is reserved for None, so a non-null object must encode to at least one byte (finding F9g:
    see objnull_empty_refuted). *)
 Theorem struct_roundtrip_top t v bs fuel :
-  rt_ok (t_schema t) = true ->
+  rt_ok (t_schema t) = true -> shape_ok (t_schema t) = true ->
   validate_and_encode round32 t v = EOk bs ->
   (t_nullable t = true -> v <> VNull -> bs <> []) ->
   decode_top widen32 fuel t bs = DOk (norm_top t v) [].
 Proof.
-  intros Hok He Hne. unfold validate_and_encode in He.
-  destruct (valid_top t v); [|discriminate He].
-  unfold encode_top in He. unfold decode_top, norm_top.
+  intros Hok Hsh He Hne. unfold validate_and_encode in He.
+  destruct (valid_top t v) eqn:Hv; [|discriminate He].
+  unfold encode_top in He. unfold decode_top, norm_top. unfold valid_top in Hv.
   destruct (t_nullable t) eqn:Hn.
-  - destruct v; try (injection He as <-; reflexivity);
+  - destruct v; try (injection He as <-; reflexivity); cbn [orb] in Hv;
       (destruct bs as [|b0 bs']; [exfalso; apply Hne; auto; discriminate|];
        rewrite <- (app_nil_r (b0 :: bs')); apply struct_roundtrip_gen; auto).
   - rewrite <- (app_nil_r bs).
     replace (match v with VNull | _ => norm round32 widen32 (t_schema t) v end)
       with (norm round32 widen32 (t_schema t) v) by (destruct v; reflexivity).
-    apply struct_roundtrip_gen; auto.
+    apply struct_roundtrip_gen; auto. destruct v; auto.
 Qed.
 
 End Top.
@@ -427,7 +305,7 @@ End Top.
 (* F9g: object|null with an empty encoding does not come back *)
 Theorem objnull_empty_refuted :
   exists (t : top) (v : value),
-    rt_ok (t_schema t) = true /\
+    rt_ok (t_schema t) = true /\ shape_ok (t_schema t) = true /\
     validate_and_encode round32_impl t v = EOk [] /\
     decode_top widen32_impl 5 t [] = DOk VNull [] /\
     norm_top round32_impl widen32_impl t v <> VNull.
@@ -438,32 +316,9 @@ Qed.
 
 (* ------------------------------------------------------------ non-vacuity *)
 
-(* {"codec":"struct","type":"object","properties":{
-     "id":   {"type":"integer","binaryFormat":"h"},
-     "name": {"type":"string","binaryFormat":"4s","nullTerminated":true},
-     "w":    {"type":"number","binaryFormat":"f","default":1.5},
-     "xs":   {"type":"array","arrayLengthFormat":"B","items":
-                {"type":"object","properties":{"p":{"type":"string","binaryFormat":"3p"},
-                                               "pad":{"type":"null","binaryFormat":"2x"}}}},
-     "fix":  {"type":"array","length":2,"items":{"type":"boolean","binaryFormat":"?"}}}} *)
-Definition ex_schema : schema :=
-  SObj None
-    [ ([105;100], {| p_index := 0; p_default := None |}, SLeaf TInteger (Some (BInt Ih)) false);
-      ([110;97;109;101], {| p_index := 0; p_default := None |}, SLeaf TString (Some (BStr 4)) true);
-      ([119], {| p_index := 0; p_default := Some (VFloat 4609434218613702656) |}, SLeaf TNumber (Some BFloat) false);
-      ([120;115], {| p_index := 0; p_default := None |},
-         SArr (ALen IB) (SObj None [ ([112], {| p_index := 0; p_default := None |}, SLeaf TString (Some (BPas 3)) false);
-                                     ([112;97;100], {| p_index := 0; p_default := None |}, SLeaf TNull (Some (BPad 2)) false) ]));
-      ([102;105;120], {| p_index := 0; p_default := None |}, SArr (AFixed 2) (SLeaf TBoolean (Some BBool) false)) ].
-
-Definition ex_value : value :=
-  VObj [ ([105;100], VInt (-2)); ([110;97;109;101], VStr [97;98;0;99;100;101]);
-         ([120;115], VArr [VObj [([112], VStr [120;121;122]); ([112;97;100], VNull)]]);
-         ([102;105;120], VArr [VBool true; VBool false]) ].
-
 Example struct_roundtrip_ex :
   let t := modify_top {| t_nullable := false; t_schema := ex_schema |} in
-  rt_ok (t_schema t) = true /\
+  rt_ok (t_schema t) = true /\ shape_ok (t_schema t) = true /\
   validate_and_encode round32_impl t ex_value =
     EOk [1; 0; 254; 255; 97; 98; 0; 99; 0; 0; 192; 63; 1; 2; 120; 121; 0; 0] /\
   decode_top widen32_impl 0 t [1; 0; 254; 255; 97; 98; 0; 99; 0; 0; 192; 63; 1; 2; 120; 121; 0; 0] =
